@@ -206,6 +206,54 @@ func genFactsText(L *loader) (string, any, []string) {
 		}
 	}
 
+	// ---------------------------------------------------------------- is the text handed to hex.Decode length-checked?
+	// (ChainIndex.UnmarshalText and rhp/v4 Account.UnmarshalText decode straight into a
+	// fixed array; without a check an over-long text indexes past it and panics)
+	guarded := func(key, name, what string) {
+		fd := f.fn(key)
+		if fd == nil {
+			return
+		}
+		var srcs []string
+		direct := 0
+		ast.Inspect(fd.Body, func(x ast.Node) bool {
+			if c, ok := x.(*ast.CallExpr); ok && textCallee(c) == "hex.Decode" && len(c.Args) == 2 {
+				direct++
+				srcs = append(srcs, types.ExprString(c.Args[1]))
+			}
+			return true
+		})
+		isGuarded := direct == 0 // e.g. delegated to unmarshalHex, which checks the length
+		if direct > 0 {
+			ok := true
+			for _, src := range srcs {
+				found := false
+				ast.Inspect(fd.Body, func(x ast.Node) bool {
+					be, isBin := x.(*ast.BinaryExpr)
+					if !isBin {
+						return true
+					}
+					switch be.Op {
+					case token.NEQ, token.EQL, token.GTR, token.LSS, token.GEQ, token.LEQ:
+						for _, side := range []ast.Expr{be.X, be.Y} {
+							if c, isCall := side.(*ast.CallExpr); isCall && len(c.Args) == 1 {
+								if id, isId := c.Fun.(*ast.Ident); isId && id.Name == "len" && types.ExprString(c.Args[0]) == src {
+									found = true
+								}
+							}
+						}
+					}
+					return true
+				})
+				ok = ok && found
+			}
+			isGuarded = ok
+		}
+		f.defBool(name, isGuarded, what+": the text passed to hex.Decode is compared by length first (or decoding is delegated to a checked helper)")
+	}
+	guarded("types.ChainIndex.UnmarshalText", "ciHexGuarded", "types.ChainIndex.UnmarshalText")
+	guarded("rhp/v4.Account.UnmarshalText", "acct4HexGuarded", "rhp/v4 Account.UnmarshalText")
+
 	// ---------------------------------------------------------------- address checksum
 	if fd := f.fn("types.Address.String"); fd != nil {
 		// checksum[:N]
@@ -533,6 +581,63 @@ func genFactsText(L *loader) (string, any, []string) {
 			}
 			f.defStrList(tn+"Tags", tags, "consensus."+tn+": JSON names of its fields, in order")
 		}
+	}
+
+	// ---------------------------------------------------------------- census of types with a text/JSON form
+	// (the harness sweeps a committed list, harness/props/c20_types.go; this census of the
+	// CURRENT tree lets it notice a type that appeared or disappeared)
+	{
+		alias := map[string]string{"types": "types", "consensus": "consensus", "gateway": "gateway", "rhp/v2": "rhp", "rhp/v3": "rhp", "rhp/v4": "rhp"}
+		hasMethod := func(T types.Type, name string) bool {
+			for _, t := range []types.Type{T, types.NewPointer(T)} {
+				ms := types.NewMethodSet(t)
+				for i := 0; i < ms.Len(); i++ {
+					if ms.At(i).Obj().Name() == name {
+						return true
+					}
+				}
+			}
+			return false
+		}
+		var census []string
+		for _, pp := range []string{"types", "consensus", "gateway", "rhp/v2", "rhp/v3", "rhp/v4"} {
+			p := L.pkgs[coreMod+"/"+pp]
+			if p == nil {
+				continue
+			}
+			names := p.Scope().Names()
+			sort.Strings(names)
+			for _, n := range names {
+				obj, ok := p.Scope().Lookup(n).(*types.TypeName)
+				if !ok || !obj.Exported() || strings.HasPrefix(n, "Verif") {
+					continue
+				}
+				named, ok := obj.Type().(*types.Named)
+				if !ok || named.TypeParams().Len() > 0 {
+					continue
+				}
+				has := false
+				switch u := named.Underlying().(type) {
+				case *types.Interface, *types.Signature, *types.Chan:
+					continue
+				case *types.Struct:
+					for i := 0; i < u.NumFields(); i++ {
+						if strings.Contains(u.Tag(i), `json:"`) {
+							has = true
+						}
+					}
+				default:
+					has = true
+				}
+				if hasMethod(named, "MarshalJSON") || hasMethod(named, "MarshalText") {
+					has = true
+				}
+				if has {
+					census = append(census, alias[pp]+"."+n+"@"+pp)
+				}
+			}
+		}
+		f.defStrList("jsonTypeCensus", census, "exported types of types, consensus, gateway, rhp/v2-4 with a MarshalText/MarshalJSON method, json field tags, or a plain named non-struct type (\"<reflect name>@<package dir>\")")
 	}
 
 	f.sb.WriteString("end Gen.FactsText\n")
